@@ -503,7 +503,7 @@ def c15(tier):
     n1 = W(tier, 7, 10)
     jobs = [
         {"pkg": "transformer", "harness": "VerifC15_OnePath", "workers": NCPU, "params": {"N": n1}},
-        {"pkg": "transformer", "harness": "VerifC15_Manifest", "workers": NCPU, "params": {"K": W(tier, 2, 3), "TRAILING": 1}},
+        {"pkg": "transformer", "harness": "VerifC15_Manifest", "workers": NCPU, "params": {"K": W(tier, 2, 3), "TRAILING": 1, "PROPS": 1}},
         {"pkg": "transformer", "harness": "VerifC15_TwoPaths", "workers": NCPU, "params": {"N": W(tier, 3, 4)}},
         T("transformer", "VerifC15_Decoded", {"N": W(tier, 12, 24)}, redirects={"net/url.QueryUnescape": "verifUnescapeStub"}),
     ]
